@@ -25,7 +25,11 @@ Definition WF (sc : scenario) (c0 : cluster) : Prop :=
      reported NotFound, nor with a UID other than the one it has in the cluster *)
   (forall w o, In w (e_waits (sc_env sc)) -> In o (w_deliv w) -> u_fin (uinfo_of sc (s_id o)) = true ->
      s_st o <> SNotFound /\
-     (s_body o = true -> s_uid o <> 0%N -> forall c, In c (objs c0) -> c_id c = s_id o -> s_uid o = c_uid c)).
+     (s_body o = true -> s_uid o <> 0%N -> forall c, In c (objs c0) -> c_id c = s_id o -> s_uid o = c_uid c)) /\
+  (* a tracked custom resource of the cluster has its CRD in the cluster: the kind of every tracked live
+     object is known to a freshly reset RESTMapper (a real API server cannot hold a custom resource
+     without its CRD; the pruner skips inventory entries of unknown kind and they leave the inventory) *)
+  (forall c, In c (objs c0) -> In (c_id c) (prev_of c0) -> kind_known sc (live_crds sc c0) (c_id c) = true).
 
 (* the known finding C01-invns-apply-failed does not occur in the run: it is not
    the case that the inventory namespace n, not tracked before the run, was created by the inventory-add
@@ -65,9 +69,15 @@ Section RunJ.
     intros H1 H2. destruct HWF as [_ [_ [_ [_ [W _]]]]]. destruct (W n l H1 H2) as [X|X]; [left|right; exact X].
     unfold fo. intros Y. apply find_obj_none in Y. contradiction.
   Qed.
+  Lemma wf_crd i c : fo c0 i = Some c -> In i (inv0 c0) -> kind_known sc (live_crds sc c0) i = true.
+  Proof.
+    intros Hc Hi. destruct HWF as [_ [_ [_ [_ [_ [_ [_ W]]]]]]].
+    rewrite <- (find_obj_id _ _ _ Hc). apply W; [eapply find_obj_In; exact Hc|].
+    rewrite (find_obj_id _ _ _ Hc). exact Hi.
+  Qed.
   Lemma wf_fin w o : In w (e_waits (sc_env sc)) -> In o (w_deliv w) -> finok sc c0 o.
   Proof.
-    intros Hw Ho UF. destruct HWF as [_ [_ [_ [_ [_ [_ W]]]]]]. destruct (W w o Hw Ho UF) as [A B].
+    intros Hw Ho UF. destruct HWF as [_ [_ [_ [_ [_ [_ [W _]]]]]]]. destruct (W w o Hw Ho UF) as [A B].
     split; [exact A|]. intros Hb Hu c Hc. apply (B Hb Hu c); [eapply find_obj_In; exact Hc|eapply find_obj_id; exact Hc].
   Qed.
 
@@ -163,6 +173,7 @@ Section RunJ.
   Lemma cache_fetch_all ids : forall s, r_cache (fst (fetch_all sc s ids)) = r_cache s.
   Proof.
     induction ids as [|i t IH]; intros s; cbn [fetch_all]; [reflexivity|].
+    destruct (negb (kind_known sc (r_known s) i)); [apply IH|].
     pose proof (cache_get_obj sc s i) as G. destruct (get_obj sc s i) as [s1 g]. cbn [fst] in G.
     destruct g; cbn [fst]; [exact G|rewrite IH; exact G|].
     specialize (IH s1). destruct (fetch_all sc s1 t) as [s2 r]. cbn [fst] in *. congruence.
@@ -194,17 +205,17 @@ Section RunJ.
   Lemma run_state_good : KFp (inv0 c0) (r_tr (run_state sc c0)) -> good (run_state sc c0).
   Proof.
     intros KF. unfold run_state in *. cbv zeta in *.
-    pose proof (same4_inv_list sc (init_state c0)) as L1. pose proof (inv_list_res sc (init_state c0)) as R1.
-    pose proof (cache_inv_list sc (init_state c0)) as KC1.
-    destruct (inv_list sc (init_state c0)) as [s1 r1]. cbn [fst snd] in *. destruct L1 as [C1 [B1 [A1 T1]]].
-    cbn [init_state r_cl r_tbl r_aband r_tr] in *.
+    pose proof (same4_inv_list sc (init_state sc c0)) as L1. pose proof (inv_list_res sc (init_state sc c0)) as R1.
+    pose proof (cache_inv_list sc (init_state sc c0)) as KC1. pose proof (known_inv_list sc (init_state sc c0)) as KN1.
+    destruct (inv_list sc (init_state sc c0)) as [s1 r1]. cbn [fst snd] in *. destruct L1 as [C1 [B1 [A1 T1]]].
+    cbn [init_state r_cl r_tbl r_aband r_tr r_known] in *.
     destruct r1 as [st|]; [|apply good_error; assumption].
     specialize (R1 st eq_refl). subst st.
     set (locals := if o_destroy (sc_opts sc) then [] else sc_local sc) in *.
     match goal with |- context [fetch_all sc s1 ?c] => set (cand := c) in * end.
     pose proof (same4_fetch_all sc cand s1) as L2. pose proof (fetch_all_cl sc cand s1) as [_ [_ FC]].
     pose proof (fetch_all_complete sc cand s1) as FCo. pose proof (fetch_all_NoDup sc cand s1) as FN.
-    pose proof (cache_fetch_all cand s1) as KC2.
+    pose proof (cache_fetch_all cand s1) as KC2. pose proof (known_fetch_all sc cand s1) as KN2.
     destruct (fetch_all sc s1 cand) as [s2 r2]. cbn [fst snd] in *. destruct L2 as [C2 [B2 [A2 T2]]].
     destruct r2 as [pobjs|]; [|apply good_error; congruence].
     specialize (FC pobjs eq_refl). specialize (FCo pobjs eq_refl). rewrite C1 in FC, FCo.
@@ -218,31 +229,33 @@ Section RunJ.
     { intros c Hc. destruct (FC c Hc) as [X Y]. unfold cand in X. apply (proj1 (sortn_In _ _)) in X.
       apply (proj1 (diffn_In _ _ _)) in X. split; [exact (proj1 X)|]. split; [exact (proj2 X)|exact Y]. }
     assert (HD : forall c, In c pobjs -> ~ In (c_id c) (map l_id locals)) by (intros c Hc; apply (HC c Hc)).
-    set (pl := build_plan sc locals pobjs) in *.
+    set (known := r_known s2) in *.
+    set (pl := build_plan sc known locals pobjs) in *.
     assert (PL_disj0 : forall j, In j (apply_ids pl) -> ~ In j (map p_id (pl_prune_all pl))) by (apply bp_disj; assumption).
     assert (PL_sub : forall j, In j (pids pl) -> In j (map p_id (pl_prune_all pl))).
     { intros j Hj. unfold pids in Hj. apply in_map_iff in Hj. destruct Hj as [q [<- Hq]]. apply in_map. apply bp_prune_sub. exact Hq. }
     assert (PL_disj : forall j, In j (apply_ids pl) -> ~ In j (pids pl)) by (intros j Hj X; exact (PL_disj0 j Hj (PL_sub j X))).
     assert (PL_c0 : forall c, In (pobj_of_live c) (pl_prune pl) -> fo c0 (c_id c) = Some c).
-    { intros c Hc. destruct (bp_prune_valid sc _ _ _ Hc) as [X _]. apply (HC c X). }
+    { intros c Hc. destruct (bp_prune_valid sc _ _ _ _ Hc) as [X _]. apply (HC c X). }
     assert (PL_cover : forall i c, fo c0 i = Some c -> In i (inv0 c0) ->
                In i (apply_ids pl) \/ In i (pl_invalid pl) \/ In i (pids pl)).
     { intros i c Hc Hi. destruct (in_dec Nat.eq_dec i (map l_id locals)) as [X|X].
-      - destruct (bp_cover_local sc locals pobjs i X); auto.
+      - destruct (bp_cover_local sc known locals pobjs i X); auto.
       - assert (Hcand : In i cand) by (unfold cand; apply sortn_In; apply diffn_In; split; assumption).
-        pose proof (FCo i c Hcand Hc) as Hin. pose proof (find_obj_id _ _ _ Hc) as EI.
-        destruct (bp_cover_prune sc locals pobjs c Hin) as [Y|Y]; [right; left; rewrite <- EI; exact Y|right; right].
+        assert (Hk : kind_known sc (r_known s1) i = true) by (rewrite KN1; exact (wf_crd i c Hc Hi)).
+        pose proof (FCo i c Hcand Hk Hc) as Hin. pose proof (find_obj_id _ _ _ Hc) as EI.
+        destruct (bp_cover_prune sc known locals pobjs c Hin) as [Y|Y]; [right; left; rewrite <- EI; exact Y|right; right].
         unfold pids. apply in_map_iff. exists (pobj_of_live c). split; [exact EI|exact Y]. }
     assert (PL_noapply : o_destroy (sc_opts sc) = true -> pl_apply pl = []).
     { intros D. destruct (pl_apply pl) as [|q t] eqn:E; [reflexivity|]. exfalso.
-      destruct (bp_apply_is_local sc locals pobjs q) as [l [_ Hl]]; [fold pl; rewrite E; left; reflexivity|].
+      destruct (bp_apply_is_local sc known locals pobjs q) as [l [_ Hl]]; [fold pl; rewrite E; left; reflexivity|].
       unfold locals in Hl. rewrite D in Hl. destruct Hl. }
     assert (PL_destroy : o_destroy (sc_opts sc) = true -> apply_ids pl = []).
     { intros D. unfold apply_ids. rewrite (PL_noapply D). reflexivity. }
     assert (PL_local : forall q l, In q (pl_apply pl) -> p_local q = Some l -> l_id l = p_id q).
-    { intros q l Hq E. destruct (bp_apply_is_local sc locals pobjs q Hq) as [l' [-> _]]. cbn in E. injection E as <-. reflexivity. }
-    pose proof (sched_tasks_of sc locals pobjs PL_noapply) as SCHED. fold pl in SCHED.
-    pose proof (tasks_todo sc locals pobjs HL HP HD) as TODO. fold pl in TODO.
+    { intros q l Hq E. destruct (bp_apply_is_local sc known locals pobjs q Hq) as [l' [-> _]]. cbn in E. injection E as <-. reflexivity. }
+    pose proof (sched_tasks_of sc known locals pobjs PL_noapply) as SCHED. fold pl in SCHED.
+    pose proof (tasks_todo sc known locals pobjs HL HP HD) as TODO. fold pl in TODO.
     set (td := todo_of (tasks_of sc pl)) in *.
     (* registration and the second read *)
     assert (ET2 : r_tbl s2 = []) by congruence.
@@ -363,7 +376,7 @@ Proof.
   unfold WF. cbn. split.
   - intros _. constructor; [intros [H|[]]; discriminate|]. constructor; [intros []|constructor].
   - split; [constructor|]. split; [intros c []|]. split; [intros c c' []|]. split; [discriminate|].
-    split; [discriminate|intros w o []].
+    split; [discriminate|]. split; [intros w o []|intros c []].
 Qed.
 
 Lemma invns_refuted : exists sc c0, WF sc c0 /\ mon_C01 sc c0 (run sc c0) = false.
@@ -373,7 +386,7 @@ Proof. exists kf_witness_sc, kf_witness_c0. split; [exact kf_witness_WF|vm_compu
 Lemma run_plan_locals sc c0 pl locals : run_plan sc c0 = Some (pl, locals) ->
   locals = if o_destroy (sc_opts sc) then [] else sc_local sc.
 Proof.
-  unfold run_plan. cbv zeta. destruct (inv_list sc (init_state c0)) as [s1 r1]. destruct r1 as [st|]; [|discriminate].
+  unfold run_plan. cbv zeta. destruct (inv_list sc (init_state sc c0)) as [s1 r1]. destruct r1 as [st|]; [|discriminate].
   destruct (fetch_all sc s1 _) as [s2 r2]. destruct r2 as [pobjs|]; [|discriminate]. intros [= _ <-]. reflexivity.
 Qed.
 
@@ -460,9 +473,19 @@ Proof.
     destruct (memn x t) eqn:E; [|reflexivity]. apply memn_In in E. contradiction.
 Qed.
 
+Lemma wf_crd_b_spec sc c0 : wf_crd_b sc c0 = true <->
+  (forall c, In c (objs c0) -> In (c_id c) (prev_of c0) -> kind_known sc (live_crds sc c0) (c_id c) = true).
+Proof.
+  unfold wf_crd_b. rewrite forallb_forall. split.
+  - intros H c Hc Hp. specialize (H c Hc). apply orb_true_iff in H. destruct H as [H|H]; [|exact H].
+    apply negb_true_iff in H. apply memn_In in Hp. congruence.
+  - intros H c Hc. apply orb_true_iff. destruct (memn (c_id c) (prev_of c0)) eqn:E; [right|left; reflexivity].
+    apply memn_In in E. apply H; assumption.
+Qed.
+
 Lemma wf_b_spec sc c0 : wf_b sc c0 = true <-> WF sc c0.
 Proof.
-  unfold wf_b, WF. rewrite !andb_true_iff, !orb_true_iff, !negb_true_iff, !nodupb_spec, wf_fin_b_spec, !forallb_forall.
+  unfold wf_b, WF. rewrite !andb_true_iff, !orb_true_iff, !negb_true_iff, !nodupb_spec, wf_fin_b_spec, wf_crd_b_spec, !forallb_forall.
   assert (E4 : (forall c, In c (objs c0) ->
                   forallb (fun c' => negb (N.eqb (c_uid c) (c_uid c')) || Nat.eqb (c_id c) (c_id c')) (objs c0) = true) <->
                (forall c c', In c (objs c0) -> In c' (objs c0) -> c_uid c = c_uid c' -> c_id c = c_id c')).
